@@ -321,8 +321,13 @@ func levelA(r *ev.Run, e *etcdx.Etcd, rng *rand.Rand, wi int, fpLive bool) {
 	neps := r.Pick(10, 40)
 	shape := ""
 	for ep := 0; ep < neps; ep++ {
-		shape += x.epoch(ep) + ";"
+		es := x.epoch(ep)
+		shape += es + ";"
 		r.Count("epochs", 1)
+		// one epoch = one execution of a (event, updater interval, clock mode) configuration under
+		// concurrent requesters; the whole world's history is judged together below
+		r.Eval(1)
+		r.Distinct(fmt.Sprintf("epoch|%s|members%d|save%s", es, len(w.Members), saveIv))
 	}
 	if wi%3 == 0 {
 		x.expiry()
@@ -613,7 +618,7 @@ func probeFailpoints(e *etcdx.Etcd) bool {
 
 func main() {
 	r := ev.New("C01", "exploration")
-	r.Rule("level A: worlds of 2-3 members x 10-40 epochs; per epoch 8-32 requesters with counts mostly small, sometimes thousands, rarely from {0,2^17,2^18-1,2^18,2^20}, an updater at {1,5,50 ms, paused} with a clock mode, and one event from {SetTSO (7 kinds), allocator reset+init, hand-over, crash+restart, update burst}; every third world ends with a natural lease expiry; distinct = sequence of (event, updater interval, clock) per world. level B: real server, 6 gRPC Tso streams + 4 pd-client goroutines with leader resignations and admin ResetTS; distinct = event list")
+	r.Rule("level A: worlds of 2-3 members x 10-40 epochs; per epoch 8-32 requesters with counts mostly small, sometimes thousands, rarely from {0,2^17,2^18-1,2^18,2^20}, an updater at {1,5,50 ms, paused} with a clock mode, and one event from {SetTSO (7 kinds), allocator reset+init, hand-over, crash+restart, update burst}; every third world ends with a natural lease expiry; distinct = (event, updater interval, clock mode, members, save interval) per epoch plus the sequence per world. level B: real server, 6 gRPC Tso streams + 4 pd-client goroutines with leader resignations and admin ResetTS; distinct = event list")
 	r.Assume("clock offsets are the repository's failpoints on a failpoint-ctl-enabled scratch copy (coverage key clock_failpoints_effective)")
 	r.Assume("a crashed member generation's responses returned after the crash tick are treated as lost (not in the history); a lease is revoked externally only together with dropping the member's objects")
 	rng := rand.New(rand.NewSource(r.ShardSeed()))
